@@ -248,7 +248,14 @@ def main(argv):
         okc, outc = build_coq(clean=(tier == "thorough" and os.environ.get("VERIF_NO_CLEAN") != "1"))
         pf = check_props_file(prop) if okc else {"ok": False, "theorems": [], "print_assumptions": 0, "closed": 0, "axioms": [], "log": outc[-3000:]}
         forb = scan_forbidden()
-        okd, outd = build_driver() if okc else (False, "coq build failed")
+        if okc:
+            okd, outd = build_driver()
+        else:
+            # A proof (or a reflective obligation over regenerated facts) no longer compiles.  The models
+            # contain no proofs (Cxx/Model.v), so they may still build: run them anyway, so that the spec
+            # oracle can look for a concrete failing input (DESIGN.md section 2, violation protocol).
+            rcm, outm = sh("timeout 3000 make -j16 theories/Extract/Dispatch.vo", cwd=COQ, timeout=3100)
+            okd, outd = build_driver() if rcm == 0 else (False, "coq build failed")
         okh, outh = build_gen_and_harness()
         if prop.get("race") and tier == "thorough":
             okr, outr = build_gen_and_harness(race=True, name="zapdrive-race")
